@@ -43,7 +43,7 @@ def case_term(c):
     return "(%s, %s, %s, %s, %s, %s)" % ("true" if c["host"] == "core" else "false", "true" if c.get("drained") else "false",
                                          c["prog"], c["handlers"], c["acts"], c["impl"])
 
-LEGACY_FN = {"verdicts_C01": "verdicts_legacy_C01", "verdicts_C01R": "verdicts_legacy_C01", "verdicts_C03": "verdicts_legacy_C03"}
+LEGACY_FN = {"verdicts_C01": "verdicts_legacy_C01", "verdicts_C01R": "verdicts_legacy_C01", "verdicts_C03": "verdicts_legacy_C03", "verdicts_C03R": "verdicts_legacy_C03"}
 def eval_cases(run, prop, cases, fn):
     """Command-API cases (direct / core hosts) go through `fn`; cases of the legacy capability API host go
     through the matching legacy verdict function (model = Rt/Legacy.v)."""
@@ -119,7 +119,9 @@ def check_generic(run, prop, fn, only_host=None, replay=None):
 def check_C01(run, replay=None):
     check_generic(run, "C01", "verdicts_C01R", replay=replay)
     run.assumptions += ["under a Core, cancellation-free apps are also compared call by call with the reference semantics coq/Rt/RefCore.v (RC_ok: the effects a call returns and the events applied are exactly the reference's, as multisets)"]
-def check_C03(run, replay=None): check_generic(run, "C03", "verdicts_C03", replay=replay)
+def check_C03(run, replay=None):
+    check_generic(run, "C03", "verdicts_C03R", replay=replay)
+    run.assumptions += ["under a Core, cancellation-free apps are also compared call by call with the reference semantics coq/Rt/RefCore.v (RC_ok: the events applied so far are exactly the reference's, as a multiset - none lost, none applied twice, none left for a later call)"]
 def check_C06(run, replay=None): check_generic(run, "C06", "verdicts_C06", replay=replay)
 def check_C07(run, replay=None): check_generic(run, "C07", "verdicts_C07", replay=replay)
 
@@ -224,3 +226,31 @@ def rc_stage(run, prop, count, replay_cases=None):
                                             "broken": "correspondence Rt.Host.under_core vs crux_core", "cases": [slim(c) for c in (v1 + v3)[:10]]}, no_input=True)
     run.extra["rt_core_stage"] = {"cases": len(res), "compared_with_reference": fk.get(2, 0), "ambiguous_request_names": fk.get(1, 0), "outside_fragment": fk.get(0, 0)}
     run.trusted += ["hand-written reference semantics coq/Rt/{Ref,RefCore}.v and runtime model coq/Rt/{Lang,Rt,Host}.v", "harness/src/bin/rt_run.rs core mode"]
+
+
+def release_stage(run, prop, count):
+    """Command programs on the direct host with the harness's drain phase (everything outstanding is resolved
+    or dropped until nothing new appears): C07_ok on the implementation's traces - a command that reports done
+    holds no task, and once everything has been resolved or dropped it is done with no task left (nothing is
+    retained by finished work).  Used by C13 beside its own engine."""
+    cases = [c for c in gen_cases(run, count) if c["host"] == "direct"]
+    res = eval_cases(run, prop, cases, "verdicts_C07")
+    v1 = [c for c, v in res if v == 1]; v2 = [c for c, v in res if v == 2]; v3 = [c for c, v in res if v == 3]
+    for c, v in res:
+        if v == 101: run.known_seen.setdefault("flat_task_never_evicted", {k: c.get(k) for k in ("idx", "seed", "prog", "handlers", "acts", "impl")})
+        run.note_case((c["prog"], c["acts"]), nontrivial=nontrivial(c)); run.cov["traces_validated_against_impl"] += 1
+    key = lambda c: c["size"] + len(c["acts"])
+    v1.sort(key=key); v2.sort(key=key)
+    slim = lambda c: {k: c.get(k) for k in ("idx", "seed", "host", "prog", "handlers", "acts", "impl", "drained")}
+    drained = sum(1 for c in cases if c.get("drained"))
+    run.oblige("release on the command runtime: done => no task held, and after everything was resolved or dropped the command is done with no task left "
+               "(%d programs x schedules, %d with the drain phase)" % (len(res), drained), not v2 and len(res) == len(cases), json.dumps([slim(c) for c in v2[:3]])[:4000])
+    run.oblige("correspondence: runtime model trace = implementation trace on these %d cases" % len(res), not v1 and not v3, json.dumps([slim(c) for c in (v1 + v3)[:3]])[:4000])
+    if v2:
+        run.violation("rt_release", {"property": prop, "what": "a command retains a task although everything it could wait for has been resolved or dropped (or reports done while holding a task)",
+                                     "cases": [slim(c) for c in v2[:10]], "how_to_replay": "harness/src/bin/rt_run.rs <seed> <count> <idx>"})
+    elif v1 or v3:
+        run.violation("correspondence_rt", {"property": prop, "what": "runtime model and implementation traces differ on the direct host; the release predicate still holds on every implementation trace seen",
+                                            "broken": "correspondence Rt.Host.direct vs crux_core", "cases": [slim(c) for c in (v1 + v3)[:10]]}, no_input=True)
+    run.extra["rt_release_stage"] = {"cases": len(res), "with_drain_phase": drained}
+    run.trusted += ["hand-written runtime model coq/Rt/{Lang,Rt,Host}.v", "harness/src/bin/rt_run.rs (drain phase)"]
